@@ -538,6 +538,9 @@ pub struct EncOpts {
     pub level: u8,
     /// fixed filter type for every row (None: random per row)
     pub fixed_filter: Option<u8>,
+    /// zero-length IDAT chunks (legal): bit 0 = one in front, bit 1 = one between the parts, bit 2 = one at the end,
+    /// bit 3 = a second one in front
+    pub empty_idat: u8,
 }
 
 impl HImg {
@@ -619,9 +622,13 @@ impl HImg {
         if z.is_empty() {
             write_chunk(&mut out, b"IDAT", &[]);
         } else {
-            for part in z.chunks(per.max(1)) {
+            if eo.empty_idat & 1 != 0 { write_chunk(&mut out, b"IDAT", &[]); }
+            if eo.empty_idat & 8 != 0 { write_chunk(&mut out, b"IDAT", &[]); }
+            for (k, part) in z.chunks(per.max(1)).enumerate() {
+                if k == 1 && eo.empty_idat & 2 != 0 { write_chunk(&mut out, b"IDAT", &[]); }
                 write_chunk(&mut out, b"IDAT", part);
             }
+            if eo.empty_idat & 4 != 0 { write_chunk(&mut out, b"IDAT", &[]); }
         }
         for (n, d) in &eo.post_idat {
             write_chunk(&mut out, n, d);
